@@ -11,7 +11,6 @@ import (
 	"strings"
 
 	"github.com/twmb/franz-go/pkg/kversion"
-	"verif.local/ev"
 	"verif/checks/c06/reflog"
 )
 
@@ -762,5 +761,3 @@ func txnShape(sm shapeMode, codec string, cid int) bool {
 	}
 	return false
 }
-
-var _ = ev.Thorough
